@@ -134,9 +134,10 @@ def run(ctx):
         if o.get("_crash") or "crash" in o:
             core.add_violation(ctx, "library raised on an enum access path: %s" % str(o)[:300], {"case": c, "observed": str(o)[:1500]})
             continue
-        for k, (got, stored, l0, l1) in enumerate(o["enum"]):
-            n_eval += 4
-            if not (got == k and stored == c["enum"][k] and l0 == k and l1 == k):
+        for k, (got, stored, l0, l1, ini) in enumerate(o["enum"]):
+            n_eval += 5
+            # written value read back, stored value, list indexing, list iteration, constructor's initial value
+            if not (got == k and stored == c["enum"][k] and l0 == k and l1 == k and ini == k):
                 core.add_violation(ctx, "enum field does not hold/return the declared enumerator", {"case": c, "member": k, "observed": o["enum"][k]})
     ctx.coverage.update({
         "evaluations": n_eval,
